@@ -56,27 +56,32 @@ def me_props(_tc):
 # quick: every type code; all 8 values of ME bits 6-8 where they select a variant or an enum
 # (19 subtype, 28 subtype, 29 subtype/SIL, 31 subtype), two corner values elsewhere.
 # thorough: all 256 values of the first payload byte.
+QMASK = {19: 0x2b, 28: 0x27, 29: 0x0d, 31: 0x87, 11: 0xa5, 5: 0x21, 0: 0x21, 4: 0x21, 24: 0x01, 20: 0x01}
 for _tc in range(32):
-    _full = _tc in (19, 28, 29, 31)
-    _qmask = 0xff if _full else 0x21 if _tc not in (11, 5) else 0xa5
-    add("me_tc%02d" % _tc, "adsb_deku", F + "obl_me", args="%d, 0x%02x" % (_tc, _qmask), props=me_props(_tc),
-        unwind=10, domain="ME type code %d x ME bits 6-8 in mask 0x%02x x all 2^48 remaining ME bits x 2^24 trailer" % (_tc, _qmask),
-        functions=["adsb::ME::from_reader_with_ctx (real derive expansion)"], timeout=1500, kani_flags=FAST,
-        features=("std", "alloc") if _tc in (0, 4, 11, 19, 28, 29, 31) else ("std",))
+    _qmask = QMASK.get(_tc, 0)
+    if _qmask:
+        add("me_tc%02d" % _tc, "adsb_deku", F + "obl_me", args="%d, 0x%02x" % (_tc, _qmask), props=me_props(_tc),
+            unwind=10, domain="ME type code %d x ME bits 6-8 in mask 0x%02x x all 2^48 remaining ME bits x 2^24 trailer" % (_tc, _qmask),
+            functions=["adsb::ME::from_reader_with_ctx (real derive expansion)"], timeout=1500, kani_flags=FAST,
+            features=("std", "alloc") if _tc in (0, 11) else ("std",))
     if _qmask != 0xff:
         add("me_tc%02d_rest" % _tc, "adsb_deku", F + "obl_me", args="%d, 0x%02x" % (_tc, 0xff & ~_qmask), props=me_props(_tc),
             unwind=10, tier="thorough", domain="ME type code %d x remaining values of ME bits 6-8 (mask 0x%02x) x all other bits" % (_tc, 0xff & ~_qmask),
-            functions=["adsb::ME::from_reader_with_ctx (real derive expansion)"], timeout=2400, kani_flags=FAST)
+            functions=["adsb::ME::from_reader_with_ctx (real derive expansion)"], timeout=3000, kani_flags=FAST)
 
 # ---- E-F payload level: MB (Comm-B) reader, all 256 first bytes --------------------------------
+for _v in (0x00, 0x10, 0x20, 0x30, 0xff):
+    add("bds_v%02x" % _v, "adsb_deku", F + "obl_bds", args="0x%02x, 0x%02x" % (_v, _v),
+        props=["C10", "C04"] + (["C08"] if _v == 0x20 else []), unwind=10,
+        domain="MB first byte 0x%02x x all 2^48 remaining MB bits x 2^24 trailer" % _v,
+        functions=["bds::BDS::from_reader_with_ctx (real derive expansion)"], timeout=900, kani_flags=FAST,
+        features=("std", "alloc") if _v in (0x10,) else ("std",))
 for _g in range(16):
     _lo, _hi = _g * 16, _g * 16 + 15
     add("bds_%02x_%02x" % (_lo, _hi), "adsb_deku", F + "obl_bds", args="0x%02x, 0x%02x" % (_lo, _hi),
-        props=["C10", "C04"] + (["C08"] if _lo == 0x20 else []), unwind=10,
-        tier="quick" if _g in (0, 1, 2, 3, 15) else "thorough",
+        props=["C10", "C04"] + (["C08"] if _lo == 0x20 else []), unwind=10, tier="thorough",
         domain="MB first byte 0x%02x..=0x%02x x all 2^48 remaining MB bits x 2^24 trailer" % (_lo, _hi),
-        functions=["bds::BDS::from_reader_with_ctx (real derive expansion)"], timeout=1500, kani_flags=FAST,
-        features=("std", "alloc") if _g in (0, 1, 2) else ("std",))
+        functions=["bds::BDS::from_reader_with_ctx (real derive expansion)"], timeout=3000, kani_flags=FAST)
 
 # ---- E-F frame level ---------------------------------------------------------------------------
 DF_FN = ["DF::from_reader_with_ctx (real derive expansion)", "AC13Field::read", "IdentityCode::read", "Capability reader",
@@ -141,9 +146,11 @@ for _nm, _b0, _b4, _need in (("df00", 0x02, -1, 7), ("df11", 0x5d, -1, 7), ("df1
                               ("df16", 0x80, -1, 14), ("df24", 0xc5, -1, 14), ("df19", 0x98, -1, 14), ("df15", 0x78, -1, 14)):
     for _len in (0, 1, 2, 3, 4, 5, 6, 7, 8, 13, 14, 15, 20, 32):
         _short = _len < _need
-        _quick = ((_len in (0, _need - 1, _need, _need + 1, 32) and _nm in ("df11", "df17", "df19", "df24")) or (_nm == "df17" and _len in (4, 7)) or (_len == _need)) and _nm != "df20"
+        if _short:
+            continue  # intractable for CBMC in both builds (measured); decided by the bounded native sweep of C02
+        _quick = (_nm, _len) in (("df11", 7), ("df11", 8), ("df11", 32), ("df17", 14), ("df17", 15), ("df17", 32), ("df19", 14), ("df19", 32), ("df24", 14), ("df00", 7), ("df15", 14))
         fch("fc_%s_%02d" % (_nm, _len), _len, _b0, _b4 if _len > 4 else -1,
-            tier="quick" if _quick else "thorough", feats=("alloc",) if _short else ("std", "alloc") if _quick else ("std",))
+            tier="quick" if _quick else "thorough", feats=("alloc",) if _short else ("std", "alloc") if (_nm, _len) in (("df11", 7), ("df17", 14), ("df19", 32)) else ("std",))
 
 add("crc_native", "adsb_deku", L + "obl_crc_native", props=["C03-native"], stubs=[], tier="native",
     domain="native search / replay only", functions=["crc::modes_checksum"])
